@@ -243,6 +243,12 @@ def project(path):
                 add('Q.pop_front', ev, args=(), res=('bulk', a[1]), synthetic=True)
                 add('BR', ev, label='pop', outcome='None', val=('bulk', a[1]), synthetic=True)
                 continue
+            if n == 'std::iter::Extend::extend' and len(a) == 2 and ci_field_ref(a[0]) == 'queue' and a[1][0] == 'agg' \
+                    and a[1][1] == 'std::option::Option':
+                # `queue.extend(opt)`: an Option iterates over at most one item, appended at the tail
+                if a[1][2] == 'Some' and a[1][3]:
+                    add('Q.push_back', ev, args=(a[1][3][0],), res=ev.val, via='extend(Option)')
+                continue
             if n == 'internal::acquire_internal':
                 e = add('LOCK', ev, guard=ev.val, nested=bool(held))
                 sid = sec_counter[0]
@@ -290,6 +296,22 @@ def project(path):
                         add('FUT.read_local_data', ev, args=a, res=ev.val, derived=True, via='signal')
                     elif SIG_FUNCS[n] == 'SIG.load_and_drop':
                         add('FUT.drop_local_data', ev, args=a, res=ev.val, derived=True, via='signal')
+                continue
+            if n == 'pointer::KanalPtr::read' and a and a[0][0] in ('ref', 'rawptr') and isinstance(a[0][1], tuple) and a[0][1][0] == 'pfield' \
+                    and a[0][1][2] == 'ptr' and _has_field(a[0][1][1], 'sig') and a[0][1][1][0] == 'pfield' and a[0][1][1][2] == 'sig' \
+                    and _has_field_sibling(path):
+                # `self.sig.ptr.read()` in a future: Signal::assume_init written out; when the value read is dropped on the spot
+                # (`_ = self.sig.ptr.read()`) it is Signal::load_and_drop written out
+                add('CALL', ev, callee=n, args=a, res=ev.val)
+                sigref = ('ref', a[0][1][1], None)
+                dropped = any((x.kind == 'drop' and x.val == ev.val) or
+                              (x.kind == 'call' and x.name == 'std::mem::drop' and x.args and x.args[-1] == ev.val) for x in path.events)
+                if dropped:
+                    add('SIG.load_and_drop', ev, args=(sigref,), res=ev.val, derived=True)
+                    add('FUT.drop_local_data', ev, args=(sigref,), res=ev.val, derived=True, via='signal')
+                else:
+                    add('SIG.assume_init', ev, args=(sigref,), res=ev.val, derived=True)
+                    add('FUT.read_local_data', ev, args=(sigref,), res=ev.val, derived=True, via='signal')
                 continue
             if n in SLOT_FUNCS:
                 add(SLOT_FUNCS[n], ev, args=a, res=ev.val)
@@ -406,6 +428,12 @@ def project(path):
                     add('UNLOCK', ev, guard=tok, how='scope')
                     held[:] = [h for h in held if h[0] != tok]
                 continue
+            # a compound value that carries a held guard (`Err((guard, data))`, `Step::Full(guard)`): dropping it releases the
+            # lock (fields drop in declaration order; the DROP of the rest is reported after the unlock)
+            hit = [h for h in held if isinstance(ev.val, tuple) and ev.val and ev.val[0] == 'agg' and contains(ev.val, h[0])]
+            for h in hit:
+                add('UNLOCK', ev, guard=h[0], how='scope-compound')
+                held[:] = [x for x in held if x[0] != h[0]]
             add('DROP', ev, place=ev.place, val=ev.val, ty=ev.extra)
             continue
         if k == 'ret':
